@@ -15,8 +15,8 @@ class Runtime(RuntimeCheck):
 
 class Check(MacroCheck):
     prop = 'C16'
-    theorems = ['C16_unmock_arm_spec', 'C16_no_function_no_arm', 'C16_unmock_arm_missing_for_mut', 'C16_runtime_unmock', 'C16_source_dispatch', 'C16_source_eval_result_dispatch', 'C16_source_respond']
-    case_prefixes = ('ref.unmock', 'mut.unmock', 'async.unmock', 'own.unmock', 'rc.unmock')
+    theorems = ['C16_unmock_arm_spec', 'C16_no_function_no_arm', 'C16_unmock_arm_present_for_mut', 'C16_unmock_receiver', 'C16_runtime_unmock', 'C16_source_dispatch', 'C16_source_eval_result_dispatch', 'C16_source_respond']
+    case_prefixes = ('ref.unmock', 'mut.unmock', 'pin.unmock', 'async.unmock', 'own.unmock', 'rc.unmock')
     runtime = Runtime()
     facts_of_interest = r'(call unmock|arm \S*Unmock|call report|arm any)'
 
